@@ -28,18 +28,25 @@ fn build(cfg: &Value) -> Box<dyn Fn(usize) -> Option<Duration>> {
     let cap = if u("cap") == 0 { None } else { Some(dur(u("cap"), unit)) };
     let f = u("f2") as f64 / 2.0;
     match cfg["src"].as_str().unwrap() {
+        // ord = 1: the cap is given before the multiplier (builder call order must not matter)
         "exp" => {
-            let mut b = ExponentialBackoff::new(ini).multiplier(m);
-            if let Some(c) = cap {
-                b = b.max_interval(c);
-            }
+            let ord = cfg["ord"].as_u64().unwrap_or(0) == 1;
+            let mut b = ExponentialBackoff::new(ini);
+            b = match (cap, ord) {
+                (Some(c), true) => b.max_interval(c).multiplier(m),
+                (Some(c), false) => b.multiplier(m).max_interval(c),
+                (None, _) => b.multiplier(m),
+            };
             Box::new(move |a| Some(b.next_interval(a)))
         }
         "rand" => {
-            let mut b = ExponentialRandomBackoff::new(ini, f).multiplier(m);
-            if let Some(c) = cap {
-                b = b.max_interval(c);
-            }
+            let ord = cfg["ord"].as_u64().unwrap_or(0) == 1;
+            let mut b = ExponentialRandomBackoff::new(ini, f);
+            b = match (cap, ord) {
+                (Some(c), true) => b.max_interval(c).multiplier(m),
+                (Some(c), false) => b.multiplier(m).max_interval(c),
+                (None, _) => b.multiplier(m),
+            };
             Box::new(move |a| Some(b.next_interval(a)))
         }
         "fixed" => {
@@ -178,9 +185,12 @@ pub fn run_backoff(seed: u64, size: Size, out: &mut Vec<String>) -> (usize, usiz
                         continue;
                     }
                     cfgs.push(json!({"src":"exp","kind":"exp","ini":ini,"mnum":mn,"mden":md,"cap":cap,"f2":0,"unit":unit}));
+                    if cap != 0 {
+                        cfgs.push(json!({"src":"exp","kind":"exp","ini":ini,"mnum":mn,"mden":md,"cap":cap,"f2":0,"unit":unit,"ord":1}));
+                    }
                     if md == 1 {
                         for f2 in [0u64, 1, 2] {
-                            cfgs.push(json!({"src":"rand","kind":"exp","ini":ini,"mnum":mn,"mden":md,"cap":cap,"f2":f2,"unit":unit}));
+                            cfgs.push(json!({"src":"rand","kind":"exp","ini":ini,"mnum":mn,"mden":md,"cap":cap,"f2":f2,"unit":unit,"ord": (f2 + mn) % 2}));
                         }
                         if mn == 2 && cap != 0 {
                             cfgs.push(json!({"src":"rc_exp","kind":"exp","ini":ini,"mnum":2,"mden":1,"cap":cap,"f2":0,"unit":unit}));
@@ -203,7 +213,7 @@ pub fn run_backoff(seed: u64, size: Size, out: &mut Vec<String>) -> (usize, usiz
         let (mn, md) = *rng.pick(&[(1u64, 1u64), (3, 2), (2, 1), (3, 1), (5, 1), (10, 1)]);
         let cap = *rng.pick(&[0u64, 1, 50, 5000, 99_999, 63_072_000]);
         let rand = md == 1 && rng.pct(40);
-        cfgs.push(json!({"src": if rand {"rand"} else {"exp"},"kind":"exp","ini":ini,"mnum":mn,"mden":md,"cap":cap,"f2": if rand { rng.below(3) as u64 } else { 0 },"unit":unit}));
+        cfgs.push(json!({"src": if rand {"rand"} else {"exp"},"kind":"exp","ini":ini,"mnum":mn,"mden":md,"cap":cap,"f2": if rand { rng.below(3) as u64 } else { 0 },"unit":unit,"ord":rng.below(2)}));
     }
     let mut ev = 0;
     for c in &cfgs {
